@@ -400,6 +400,118 @@ func keysetBytes(h *keyset.Handle) string {
 	return string(b.Bytes())
 }
 
+// firstUse: a FRESH primitive per trial, used for the first time from all
+// workers at once (released together); results compared with an oracle computed
+// on a separately built primitive.  Catches unsynchronised lazy initialisation,
+// which a warmed-up primitive never shows.
+func firstUse(name string, trials int, r *hx.Rng) string {
+	var t tmpl
+	for _, x := range templates {
+		if x.name == name {
+			t = x
+		}
+	}
+	h := handleFor(t)
+	ad := []byte("associated data")
+	m := msgFor(r, 2, 3)
+	type prim struct {
+		det func(in []byte) ([]byte, error)      // deterministic operation
+		inv func(out, in []byte) ([]byte, error) // its inverse / verification (may be nil)
+	}
+	mk := func() (prim, error) {
+		switch t.class {
+		case "daead":
+			p, err := daead.New(h)
+			if err != nil {
+				return prim{}, err
+			}
+			return prim{func(in []byte) ([]byte, error) { return p.EncryptDeterministically(in, ad) },
+				func(out, in []byte) ([]byte, error) { return p.DecryptDeterministically(out, ad) }}, nil
+		case "mac":
+			p, err := mac.New(h)
+			if err != nil {
+				return prim{}, err
+			}
+			return prim{func(in []byte) ([]byte, error) { return p.ComputeMAC(in) },
+				func(out, in []byte) ([]byte, error) { return in, p.VerifyMAC(out, in) }}, nil
+		case "prf":
+			p, err := prf.NewPRFSet(h)
+			if err != nil {
+				return prim{}, err
+			}
+			return prim{func(in []byte) ([]byte, error) { return p.ComputePrimaryPRF(in, 16) }, nil}, nil
+		case "aead":
+			p, err := aead.New(h)
+			if err != nil {
+				return prim{}, err
+			}
+			return prim{func(in []byte) ([]byte, error) {
+				ct, err := p.Encrypt(in, ad)
+				if err != nil {
+					return nil, err
+				}
+				return p.Decrypt(ct, ad)
+			}, nil}, nil
+		}
+		return prim{}, fmt.Errorf("class %s has no first-use case", t.class)
+	}
+	oracleP, err := mk()
+	if err != nil {
+		return "DIFF " + err.Error()
+	}
+	want, err := oracleP.det(m)
+	if err != nil {
+		return "DIFF " + err.Error()
+	}
+	for trial := 0; trial < trials; trial++ {
+		p, err := mk()
+		if err != nil {
+			return "DIFF " + err.Error()
+		}
+		var wg sync.WaitGroup
+		var ready sync.WaitGroup
+		start := make(chan struct{})
+		bad := make(chan string, workers)
+		for w := 0; w < 8; w++ {
+			wg.Add(1)
+			ready.Add(1)
+			go func() {
+				defer wg.Done()
+				defer func() {
+					if e := recover(); e != nil {
+						bad <- fmt.Sprint("panic: ", e)
+					}
+				}()
+				ready.Done()
+				<-start
+				out, err := p.det(m)
+				if err != nil || !bytes.Equal(out, want) {
+					bad <- "first concurrent use of a fresh primitive gave a result that differs from the sequential one"
+					return
+				}
+				if p.inv != nil {
+					if back, err := p.inv(out, m); err != nil || !bytes.Equal(back, m) {
+						bad <- "first concurrent use of a fresh primitive: inverse/verification failed"
+					}
+				}
+			}()
+		}
+		ready.Wait()
+		close(start)
+		wg.Wait()
+		select {
+		case s := <-bad:
+			return fmt.Sprintf("DIFF %s (trial %d)", s, trial)
+		default:
+		}
+		// the instance must also be right afterwards
+		if out, err := p.det(m); err != nil || !bytes.Equal(out, want) {
+			return fmt.Sprintf("DIFF primitive permanently wrong after its first concurrent use (trial %d)", trial)
+		}
+	}
+	return "ok"
+}
+
 // handle reads, primitive construction and registry lookups, concurrently
 func runHandleReads(iters int, r *hx.Rng) string {
 	t := templates[int(r.U64()%uint64(len(templates)))]
@@ -460,7 +572,7 @@ func raceLogSize() int64 {
 	return n
 }
 
-// case lines: H|<template>|<iters>|<seed>   R|<iters>|<seed>
+// case lines: H|<template>|<iters>|<seed>   F|<template>|<trials>|<seed> (first use of fresh primitives)   R|<iters>|<seed>
 func run(in string) string {
 	f := strings.Split(in, "|")
 	before := raceLogSize()
@@ -471,6 +583,10 @@ func run(in string) string {
 			it, _ := strconv.Atoi(f[2])
 			sd, _ := strconv.ParseUint(f[3], 10, 64)
 			res = runTemplate(f[1], it, hx.NewRng(sd))
+		case "F":
+			it, _ := strconv.Atoi(f[2])
+			sd, _ := strconv.ParseUint(f[3], 10, 64)
+			res = firstUse(f[1], it, hx.NewRng(sd))
 		case "R":
 			it, _ := strconv.Atoi(f[1])
 			sd, _ := strconv.ParseUint(f[2], 10, 64)
@@ -495,6 +611,12 @@ func gen(r *hx.Rng, n int, tier string) []string {
 		for _, t := range templates {
 			lines = append(lines, fmt.Sprintf("H|%s|%d|%d", t.name, iters, r.U64()%1000000))
 		}
+		for _, t := range templates {
+			switch t.class {
+			case "daead", "mac", "prf", "aead":
+				lines = append(lines, fmt.Sprintf("F|%s|%d|%d", t.name, 8*iters, r.U64()%1000000))
+			}
+		}
 		for k := 0; k < 4; k++ {
 			lines = append(lines, fmt.Sprintf("R|%d|%d", iters, r.U64()%1000000))
 		}
@@ -511,8 +633,8 @@ func check(in, obs string) string {
 
 func class(in, obs string) string {
 	f := strings.Split(in, "|")
-	if f[0] == "H" {
-		return "H:" + f[1]
+	if f[0] == "H" || f[0] == "F" {
+		return f[0] + ":" + f[1]
 	}
 	return "R:" + f[2]
 }
